@@ -265,6 +265,75 @@ theorem C33_nested_saved (H : Hooks) (ord : State → List Nat → List Nat) (bf
   · obtain ⟨k, hk'⟩ := hinv'.dirty o ob hob hpos
     rw [hk] at hk'; cases hk'
 
+/-- SAVED, links, nested: when a flush with recursive flushes returns, no link change is pending and the link table equals the
+    collections of the session — including links changed inside after_* hooks that query afterwards -/
+theorem C33_nested_links_saved (H : Hooks) (ord : State → List Nat → List Nat) (bfuel depth : Nat) (hperm : ∀ st l, (ord st l).Perm l)
+    (s s' : State) (hinv : Inv s) (hsv : s.saved = []) (hl : LK s) (h : flushN H ord bfuel depth s = .ok s') :
+    s'.lk.pendAdd = [] ∧ s'.lk.pendRem = [] ∧ ∀ p, p ∈ s'.lk.view ↔ p ∈ s'.lk.db := by
+  obtain ⟨_, _, hmod, _⟩ := flushN_spec H ord bfuel hperm depth s s' hinv hsv h
+  obtain ⟨⟨hv, _, _⟩, _, hf⟩ := flushN_lk H ord bfuel depth s s' hl h
+  have pa : s'.lk.pendAdd = [] := by
+    cases hp : s'.lk.pendAdd with
+    | nil => rfl
+    | cons x xs => have := hf (Or.inl (by rw [hp]; simp)); rw [hmod] at this; cases this
+  have pr : s'.lk.pendRem = [] := by
+    cases hp : s'.lk.pendRem with
+    | nil => rfl
+    | cons x xs => have := hf (Or.inr (by rw [hp]; simp)); rw [hmod] at this; cases this
+  refine ⟨pa, pr, ?_⟩
+  intro p
+  rw [hv p, pa, pr]; simp
+
+/-- ONCE, obj.flush(), nested: `obj.flush()` whose hooks may query (the after_* hooks then flush the whole cache recursively): under
+    the same guard as `C33_entity_flush_refs` the trace is accepted by the once-before / once-after automaton of every (kind, object) -/
+theorem C33_entity_flush_nested (H : Hooks) (ord : State → List Nat → List Nat) (bfuel depth : Nat) (hperm : ∀ st l, (ord st l).Perm l)
+    (s s' s1 : State) (o : Nat) (hl : List Nat) (hinv : Inv s) (hsv : s.saved = []) (hpend : ∃ k, s.kindAt o = some k)
+    (hb : entityBeforeLoop H (fun st p => st.refsOf p) bfuel 0 [o] s = .ok (s1, hl))
+    (hguard : (saveDfs s1 (s1.objs.length + 1) [] o).Perm hl)
+    (h : entityFlushRefsN H ord bfuel depth s o = .ok s') :
+    ∃ t, s'.trace = s.trace ++ t ∧ Balanced t := by
+  obtain ⟨k0, hk0⟩ := hpend
+  obtain ⟨hinv1, hsv1, _, hnd, hp1, _, ht1⟩ :=
+    entityBeforeLoop_spec H _ bfuel 0 [o] s s1 hl hinv (by simp) (by intro p hp; simp at hp; subst hp; exact ⟨k0, hk0⟩) hb
+  simp only [entityFlushRefsN, entityFlushN, hk0, hb] at h
+  have hnd2 : (saveDfs s1 (s1.objs.length + 1) [] o).Nodup := hguard.nodup_iff.mpr hnd
+  have hp2 : ∀ p ∈ saveDfs s1 (s1.objs.length + 1) [] o, ∃ k, s1.kindAt p = some k := fun p hp => hp1 p (hguard.mem_iff.mp hp)
+  obtain ⟨s2, hsave, hq2, hm2, ht2, hsv2, _, hin, hout⟩ := saveAll_spec _ s1 hnd2 hp2
+  simp only [hsave] at h
+  have hinv3 := inv_after_entity_save s1 s2 _ hinv1 hq2 hm2 hin hout
+  have hn : NestedSpec (flushN H ord bfuel depth) := by
+    intro a a' ha hs hf
+    obtain ⟨i, v, _, t, e, b⟩ := flushN_spec H ord bfuel hperm depth a a' ha hs hf
+    exact ⟨i, v, t, e, b⟩
+  have hQ : (keysL s1 hl).Nodup := nodup_keysL s1 hl hnd
+  have hS : (keysL s1 (saveDfs s1 (s1.objs.length + 1) [] o)).Nodup := nodup_keysL s1 _ hnd2
+  have hPerm : (keysL s1 (saveDfs s1 (s1.objs.length + 1) [] o)).Perm (keysL s1 hl) := hguard.filterMap _
+  have esv : s2.saved = (keysL s1 (saveDfs s1 (s1.objs.length + 1) [] o)).map (fun p => (p.2, p.1)) := by
+    rw [hsv2, hsv1, hsv]; simp
+  have hkeys : (s2.saved.map (fun q => (q.2, q.1))) = keysL s1 (saveDfs s1 (s1.objs.length + 1) [] o) := by
+    rw [esv, List.map_map]; simp [Function.comp_def]
+  obtain ⟨_, _, t, et, bt⟩ := afterLoopA_spec _ hn H _ _ s' hinv3 rfl (by rw [hkeys]; exact hS) h
+  refine ⟨(keysL s1 hl).map evB ++ (keysL s1 (saveDfs s1 (s1.objs.length + 1) [] o)).map evS ++ t, ?_, ?_⟩
+  · rw [et]
+    show s2.trace ++ t = _
+    rw [ht2, ht1]
+    simp only [List.drop_zero, List.append_assoc]
+  · intro p n
+    rw [runKey_append, runKey_append, runKey_befores p _ false n hQ]
+    by_cases hp : p ∈ keysL s1 hl
+    · have hp' : p ∈ keysL s1 (saveDfs s1 (s1.objs.length + 1) [] o) := hPerm.mem_iff.mpr hp
+      simp only [hp, if_true, Bool.false_eq_true, if_false]
+      rw [runKey_stmts p _ true n hS]; simp only [hp', if_true]
+      have := bt p n
+      rw [hkeys] at this
+      simpa [hp'] using this
+    · have hp' : ¬ p ∈ keysL s1 (saveDfs s1 (s1.objs.length + 1) [] o) := fun e => hp (hPerm.mem_iff.mp e)
+      simp only [hp, if_false]
+      rw [runKey_stmts p _ false n hS]; simp only [hp', if_false]
+      have := bt p n
+      rw [hkeys] at this
+      simpa [hp'] using this
+
 /-- what acceptance by the automaton means in numbers: over the trace, as many before_X(o) entries as X-statements for o as
     after_X(o) entries -/
 theorem C33_balanced_counts (t : List Event) (h : Balanced t) (k : Kind) (o : Nat) :
